@@ -19,6 +19,7 @@ import (
 	lunar_context "lunar/engine/streams/lunar-context"
 	publictypes "lunar/engine/streams/public-types"
 	streamtypes "lunar/engine/streams/types"
+	"lunar/engine/streams/validation"
 	"lunar/engine/utils/environment"
 	context_manager "lunar/toolkit-core/context-manager"
 
@@ -92,10 +93,29 @@ type quotaFile struct {
 	internals []quotaDef
 }
 
+// rawFile: a file of the configuration directory given by its content kind (documents without content)
+type rawFile struct{ dir, kind string }
+
 type caseCfg struct {
 	ptypes []*ptypeDef
 	flows  []*flowDef
 	qfiles []*quotaFile
+	raws   []rawFile
+}
+
+// rawContents: files that hold NO YAML document although they are not (all) blank, and their neighbours
+var rawContents = map[string]string{
+	"comment":        "# name: disabled-by-its-owner\n# filter:\n#   url: verif.test/x\n#quotas:\n#  - id: q\n",
+	"dashes":         "---\n",
+	"tilde":          "~\n",
+	"null":           "null\n",
+	"blank":          "  \n\n",
+	"empty":          "",
+	"dashes-comment": "---\n# nothing here\n",
+	"nullentry":      "path_params:\n  - ~\n",
+	"valid-pp":       "path_params:\n  - url: verif.test/p/{id}\n",
+	"valid-gw":       "exporters: {}\n",
+	"broken":         "a: [1, 2\n",
 }
 
 func (c *caseCfg) flow(name string) *flowDef {
@@ -538,6 +558,13 @@ func (c *caseCfg) files() map[string]string {
 	for idx, q := range c.qfiles {
 		out[fmt.Sprintf("quotas/q%02d.yaml", idx)] = quotaFileYAML(q)
 	}
+	for idx, rf := range c.raws {
+		if rf.dir == "gateway" {
+			out["gateway_config.yaml"] = rawContents[rf.kind]
+		} else {
+			out[fmt.Sprintf("%s/zz%02d.yaml", rf.dir, idx)] = rawContents[rf.kind]
+		}
+	}
 	return out
 }
 
@@ -587,6 +614,8 @@ func classifyLoadErr(err error) string {
 		return "cycle"
 	case strings.Contains(m, "no flow direction defined"):
 		return "undefined"
+	case strings.Contains(m, "gateway config"):
+		return "gateway"
 	case strings.Contains(m, "circular flow reference"):
 		return "refcycle"
 	case strings.Contains(m, "foreign root node not found"), strings.Contains(m, "root node not found for flow"):
@@ -664,12 +693,18 @@ func materialise(c *caseCfg) string {
 func validate(c *caseCfg, dir string) error {
 	s, err := streams.NewValidationStream(dir)
 	if err != nil {
-		return err
+		// the resources (quota files) are read here, before any flow
+		return fmt.Errorf("quota resources: %w", err)
 	}
 	for _, p := range c.ptypes {
 		s.VerifSetFactory(p.name, probeFactory)
 	}
 	return s.Initialize()
+}
+
+// validateGateway = the last step of validation.Validator.Validate(): the gateway config of the directory
+func validateGateway(dir string) error {
+	return validation.NewValidator().WithValidationDir(dir).ValidateGatewayConfig()
 }
 
 func liveLoad(c *caseCfg) (*streams.Stream, error) {
